@@ -3,6 +3,10 @@
  * Mnemonic and register texts are concrete per form; operand values, PC and CPU variant symbolic.
  */
 #include "vlib.h"
+#include <ctype.h>
+/* glibc implements isdigit() through a table behind __ctype_b_loc(), which CBMC has no body for */
+#undef isdigit
+#define isdigit(c) ((c) >= '0' && (c) <= '9')
 #include "src/code4004.c"
 #include "diag.h"
 #include "insttab.h"
@@ -22,6 +26,8 @@ static int ev_range(IntType t, LargeInt* lo, LargeInt* hi)
 }
 
 /* ---- environment ---- */
+int as_strcasecmp(char const* a, char const* b)
+{ int i; for (i = 0; ; i++) { int ca = toupper((unsigned char)a[i]), cb = toupper((unsigned char)b[i]); if (ca != cb) return ca - cb; if (!ca) return 0; } }
 static LargeWord pc;
 LargeWord EProgCounter(void) { return pc; }
 Boolean ChkMinCPUExt(CPUVar MinCPU, tErrorNum ErrorNum) { (void)ErrorNum; if (MomCPU < MinCPU) { WrError(ErrNum_InstructionNotSupported); return False; } return True; }
@@ -133,14 +139,22 @@ void harness(void)
   if (in_form < 2)
   {
     run(in_form ? "JMS" : "JUN", "x", 0, 1);
-    if (in_v1 < 0 || in_v1 > 4095) { REJECT("12-bit address out of range"); WITNESS("address rejected"); }
+    if (in_v1 < 0 || in_v1 > 4095) { REJECT("12-bit address out of range");
+#if !defined(FORM) || FORM <= 1
+      WITNESS("address rejected");
+#endif
+    }
     else EXPECT2((in_form ? 0x50 : 0x40) + ((in_v1 >> 8) & 15), in_v1 & 0xff, "JUN/JMS");
   }
   else if (in_form == 2)
   {
     run("JCN", in_altsyntax ? "TZ" : "C", "x", 2);
     if (in_v2 < 0 || in_v2 > 4095) REJECT("JCN target out of range");
-    else if (((in_pc + 2) >> 8) != ((LargeWord)in_v2 >> 8)) { REJECT("JCN target outside the page of the next instruction"); WITNESS("JCN page rejected"); }
+    else if (((in_pc + 2) >> 8) != ((LargeWord)in_v2 >> 8)) { REJECT("JCN target outside the page of the next instruction");
+#if !defined(FORM) || FORM == 2
+      WITNESS("JCN page rejected");
+#endif
+    }
     else EXPECT2(0x10 + (in_altsyntax ? 5 : 2), in_v2 & 0xff, "JCN");
   }
   else
@@ -157,7 +171,11 @@ void harness(void)
         else if ((in_pc & 0xff) >= 0xfe) { }
 #endif
         /* MCS-4: the 8-bit address refers to the page of the instruction FOLLOWING the two-byte ISZ */
-        else if (((in_pc + 2) >> 8) != ((LargeWord)in_v2 >> 8)) { REJECT("ISZ target outside the page of the next instruction"); WITNESS("ISZ page rejected"); }
+        else if (((in_pc + 2) >> 8) != ((LargeWord)in_v2 >> 8)) { REJECT("ISZ target outside the page of the next instruction");
+#if !defined(FORM) || FORM == 3
+          WITNESS("ISZ page rejected");
+#endif
+        }
         else EXPECT2(0x70 + r, in_v2 & 0xff, "ISZ");
       }
   }
